@@ -211,10 +211,7 @@ func (cc *ClientConn) newStream(
 		}
 	}
 
-	id, rw, teardown, err := cc.mp.NewStreamReadWriter(ctx)
-	if err != nil {
-		return nil, err
-	}
+	var err error
 
 	beginTime := time.Now()
 	for _, sh := range cc.statsHandlers {
@@ -241,6 +238,11 @@ func (cc *ClientConn) newStream(
 			}
 		}
 	}()
+
+	id, rw, teardown, err := cc.mp.NewStreamReadWriter(ctx)
+	if err != nil {
+		return nil, err
+	}
 
 	// open stream
 	rpc := goatorepo.Rpc{
